@@ -138,6 +138,7 @@ let () =
   let layout_group : (int * result) list ref = ref [] in
   let distinct : (string, unit) Hashtbl.t = Hashtbl.create 4096 in
   let prev_vis : (string * string * string list) option ref = ref None in
+  let val_runs = ref 0 and val_ok = ref 0 and val_budget = ref (geti "VALIDATE_BUDGET" 1000000) in
   let lm_seen : (string, string) Hashtbl.t = Hashtbl.create 1024 in
   let kinds_lits s = String.concat ";" (List.map (fun tk -> match String.split_on_char '|' tk with a :: b :: _ -> a ^ "|" ^ b | _ -> tk) (String.split_on_char ';' s)) in
   (* direct position check of the implementation's tokens against the source text *)
@@ -329,6 +330,17 @@ let () =
                   | None -> Hashtbl.replace lm_seen key stripped)
              | _ -> ())
           end;
+          (* the validators of theorem emit_script_correct_checked, on the model's own graph / order / code of every script *)
+          if has "validate" && lint = "0" && !val_budget > 0 then begin
+            (match impl with
+             | ROk _ ->
+                 decr val_budget;
+                 (match validator is_l is_d is_s autovars switches fcx (opt = "1") (text_of_string src) with
+                  | Some rs -> List.iter (fun (nm, ok) -> incr val_runs; if ok then incr val_ok else
+                                 Printf.printf "VALIDATOR-REJECT\t%d\t%s\toptimize=%s src=%S\n" !idx (string_of_text nm) opt src) rs
+                  | None -> ())
+             | _ -> ())
+          end;
           if has "sem" && lint = "0" && lmpath = "" && (mism || (sem_mode = "semall" && !sem_budget > 0)) then begin
             match impl with
             | ROk out ->
@@ -347,5 +359,5 @@ let () =
       | _ -> ()
     done
   with End_of_file -> ());
-  Printf.printf "SUMMARY\t{\"cases\": %d, \"distinct\": %d, \"mismatches\": %d, \"fails\": %d, \"model_ok\": %d, \"model_err\": %d, \"e2e_cases\": %d, \"lex_cases\": %d, \"fmt_cases\": %d, \"meta_pairs\": %d, \"meta_differences\": %d, \"sem_cases\": %d, \"oracle_scripts\": %d, \"oracle_disagreements\": %d}\n"
-    !total (Hashtbl.length distinct) !bad !fails !okc !errc !e2ec !lexc !fmtc !metac !metabad !semcases !oracle_runs !oracle_bad
+  Printf.printf "SUMMARY\t{\"cases\": %d, \"distinct\": %d, \"mismatches\": %d, \"fails\": %d, \"model_ok\": %d, \"model_err\": %d, \"e2e_cases\": %d, \"lex_cases\": %d, \"fmt_cases\": %d, \"meta_pairs\": %d, \"meta_differences\": %d, \"sem_cases\": %d, \"oracle_scripts\": %d, \"oracle_disagreements\": %d, \"validator_scripts\": %d, \"validator_accepts\": %d}\n"
+    !total (Hashtbl.length distinct) !bad !fails !okc !errc !e2ec !lexc !fmtc !metac !metabad !semcases !oracle_runs !oracle_bad !val_runs !val_ok
